@@ -22,13 +22,13 @@ type treeCfg struct {
 }
 
 type treeStep struct {
-	Op     string      `json:"op"`
-	K      string      `json:"k,omitempty"`
-	V      string      `json:"v,omitempty"`
-	Ver    int64       `json:"ver,omitempty"`
-	Cache  int         `json:"cache,omitempty"`
+	Op     string       `json:"op"`
+	K      string       `json:"k,omitempty"`
+	V      string       `json:"v,omitempty"`
+	Ver    int64        `json:"ver,omitempty"`
+	Cache  int          `json:"cache,omitempty"`
 	Ranges [][2]*string `json:"ranges,omitempty"`
-	Absent []string    `json:"absent,omitempty"`
+	Absent []string     `json:"absent,omitempty"`
 }
 
 type treeSim struct {
@@ -259,7 +259,7 @@ func (s *treeSim) existingKey(r *core.Rand) []byte {
 }
 
 func (s *treeSim) gen(r *core.Rand) *treeStep {
-	w := []int{ /*set*/ 40, /*rm*/ 22, /*save*/ 10, /*delver*/ 3, /*reopen*/ 0, /*lazy*/ 4, /*check*/ 6}
+	w := []int{ /*set*/ 40 /*rm*/, 22 /*save*/, 10 /*delver*/, 3 /*reopen*/, 0 /*lazy*/, 4 /*check*/, 6}
 	if s.prop == "C04" {
 		w[4] = 5
 	}
